@@ -127,7 +127,6 @@ func (f *fieldSelectionMergingVisitor) EnterField(ref int) {
 		}
 
 		matchedRequirements := f.NonScalarRequirementsByPathField(path, objectName)
-		hasDifferentKindInRequirements := false
 		for _, i := range matchedRequirements {
 
 			if !f.potentiallySameObject(fieldDefinitionTypeNode, f.nonScalarRequirements[i].fieldTypeDefinitionNode) {
@@ -179,16 +178,6 @@ func (f *fieldSelectionMergingVisitor) EnterField(ref int) {
 				f.StopWithExternalErr(operationreport.ErrDifferingFieldsOnPotentiallySameType(objectName))
 				return
 			}
-
-			if fieldDefinitionTypeNode.Kind != f.nonScalarRequirements[i].fieldTypeDefinitionNode.Kind {
-				hasDifferentKindInRequirements = true
-			}
-		}
-
-		if hasDifferentKindInRequirements {
-			// If we've already checked this field against a requirement with a different Kind,
-			// we don't need to add it again to requirements.
-			return
 		}
 
 		f.nonScalarRequirements = append(f.nonScalarRequirements, nonScalarRequirement{
